@@ -4,7 +4,7 @@
 
 use serde::{Deserialize, Serialize};
 
-use crate::explore::{Act, Consumer, Ev, GRef, Ret, Runner, Stepper};
+use crate::explore::{in_task_poll, Act, Consumer, Ev, GRef, Ret, Runner, Stepper};
 use crate::gen::RunCfg;
 use crate::model::{build_graph, GraphFacts, GraphSpec};
 use crate::oracle::{check_run, RunStats, Violation};
@@ -43,10 +43,45 @@ pub struct SingleResult {
 
 pub const HARD_ACTION_CAP: usize = 200_000;
 
+/// Schedule styles (drawn once per run): how eagerly the polling task runs
+/// when it has been woken.
+#[derive(Clone, Copy, Debug, PartialEq, Eq)]
+pub enum Style {
+    /// Poll with probability 2/3 when woken.
+    Mixed,
+    /// Rarely poll while there is anything else to do: long batches of
+    /// completions / drops between two polls.
+    Batchy,
+    /// Always poll as soon as woken (one completion between polls).
+    Eager,
+}
+
+impl Style {
+    pub fn from_tape(t: &mut Tape) -> Style {
+        match t.below(5) {
+            3 => Style::Batchy,
+            4 => Style::Eager,
+            _ => Style::Mixed,
+        }
+    }
+}
+
 pub fn choose(t: &mut Tape, wants_poll: bool, opts: &[Act]) -> Act {
+    choose_styled(t, wants_poll, opts, Style::Mixed)
+}
+
+pub fn choose_styled(t: &mut Tape, wants_poll: bool, opts: &[Act], style: Style) -> Act {
     if wants_poll {
         // opts[0] is Poll
-        if opts.len() == 1 || t.below(3) < 2 {
+        if opts.len() == 1 {
+            return opts[0];
+        }
+        let poll = match style {
+            Style::Mixed => t.below(3) < 2,
+            Style::Batchy => t.below(48) == 0,
+            Style::Eager => true,
+        };
+        if poll {
             return opts[0];
         }
         return opts[1 + t.below(opts.len() - 1)];
@@ -55,60 +90,151 @@ pub fn choose(t: &mut Tape, wants_poll: bool, opts: &[Act]) -> Act {
 }
 
 /// Drive a stepper to completion (or until it is stuck).  Returns whether all
-/// strict actions applied.
-pub fn drive(s: &mut dyn Stepper, schedule: Schedule) -> bool {
+/// strict actions applied.  With `coop` the actions are executed inside tokio
+/// task polls ("windows" that end with `Act::Yield`): the cooperative budget is
+/// shared by all polls of a window and observations are made when it ends.
+pub fn drive(s: &mut dyn Stepper, schedule: Schedule, coop: bool) -> bool {
     let mut k = 0usize;
     let mut strict_ok = true;
     match schedule {
         Schedule::Tape(t, max_actions, abort_after) => {
-            while !s.done() && !s.stuck() && k < HARD_ACTION_CAP {
-                if abort_after == Some(k) && s.apply(Act::Abort) {
+            let style = Style::from_tape(t);
+            if !coop {
+                while !s.done() && !s.stuck() && k < HARD_ACTION_CAP {
+                    if abort_after == Some(k) && s.apply(Act::Abort) {
+                        k += 1;
+                        continue;
+                    }
+                    let opts = s.options();
+                    if opts.is_empty() {
+                        break;
+                    }
+                    let a = if k >= max_actions {
+                        opts[0]
+                    } else {
+                        choose_styled(t, s.wants_poll(), &opts, style)
+                    };
+                    s.apply(a);
                     k += 1;
-                    continue;
                 }
-                let opts = s.options();
-                if opts.is_empty() {
-                    break;
+            } else {
+                while !s.done() && !s.stuck() && k < HARD_ACTION_CAP {
+                    let wsize = if k >= max_actions {
+                        1
+                    } else {
+                        match t.below(4) {
+                            0 => 1,
+                            1 => 1 + t.below(8),
+                            2 => 1 + t.below(64),
+                            _ => 1 + t.below(400),
+                        }
+                    };
+                    in_task_poll(|| {
+                        s.set_deferred(true);
+                        for _ in 0..wsize {
+                            if s.done() || k >= HARD_ACTION_CAP {
+                                break;
+                            }
+                            if abort_after == Some(k) && s.apply(Act::Abort) {
+                                k += 1;
+                                continue;
+                            }
+                            let opts = s.options();
+                            if opts.is_empty() {
+                                break;
+                            }
+                            let a = if k >= max_actions {
+                                opts[0]
+                            } else {
+                                choose_styled(t, s.wants_poll(), &opts, style)
+                            };
+                            s.apply(a);
+                            k += 1;
+                        }
+                        s.set_deferred(false);
+                    });
+                    s.note_yield();
+                    s.observe();
                 }
-                let a = if k >= max_actions {
-                    opts[0]
-                } else {
-                    choose(t, s.wants_poll(), &opts)
-                };
-                s.apply(a);
-                k += 1;
             }
         }
         Schedule::Replay(acts) => {
-            for a in acts {
-                if s.done() {
-                    break;
-                }
-                s.apply(*a);
-            }
-            finish_default(s);
+            replay_acts(s, acts, coop, false);
+            finish_default(s, coop);
         }
         Schedule::Strict(acts) => {
-            for a in acts {
-                if s.done() || !s.apply(*a) {
-                    strict_ok = false;
-                    break;
-                }
-            }
+            strict_ok = replay_acts(s, acts, coop, true);
         }
     }
     strict_ok
 }
 
+/// Apply a recorded action list (windows delimited by `Act::Yield` when `coop`).
+fn replay_acts(s: &mut dyn Stepper, acts: &[Act], coop: bool, strict: bool) -> bool {
+    if !coop {
+        for a in acts {
+            if *a == Act::Yield {
+                continue;
+            }
+            if s.done() {
+                return !strict;
+            }
+            if !s.apply(*a) && strict {
+                return false;
+            }
+        }
+        return true;
+    }
+    let mut ok = true;
+    for window in acts.split(|a| *a == Act::Yield) {
+        if s.done() {
+            if !window.is_empty() && strict {
+                ok = false;
+            }
+            break;
+        }
+        in_task_poll(|| {
+            s.set_deferred(true);
+            for a in window {
+                if s.done() || !s.apply(*a) {
+                    if strict {
+                        ok = false;
+                    }
+                    if s.done() {
+                        break;
+                    }
+                }
+            }
+            s.set_deferred(false);
+        });
+        s.note_yield();
+        s.observe();
+        if strict && !ok {
+            break;
+        }
+    }
+    ok
+}
+
 /// Default policy: poll when woken, otherwise complete the lowest candidate.
-pub fn finish_default(s: &mut dyn Stepper) {
+pub fn finish_default(s: &mut dyn Stepper, coop: bool) {
     let mut k = 0usize;
     while !s.done() && !s.stuck() && k < HARD_ACTION_CAP {
         let opts = s.options();
         if opts.is_empty() {
             break;
         }
-        s.apply(opts[0]);
+        if coop {
+            in_task_poll(|| {
+                s.set_deferred(true);
+                s.apply(opts[0]);
+                s.set_deferred(false);
+            });
+            s.note_yield();
+            s.observe();
+        } else {
+            s.apply(opts[0]);
+        }
         k += 1;
     }
 }
@@ -142,7 +268,7 @@ pub fn run_on(
 ) -> SingleResult {
     let (trace, acts, ret, engine, polls, strict_ok) = if cfg.api.shape.is_stream() {
         let mut c = Consumer::new(&*g, cfg);
-        let ok = drive(&mut c, schedule);
+        let ok = drive(&mut c, schedule, cfg.coop);
         (
             c.trace(),
             c.acts().to_vec(),
@@ -153,7 +279,7 @@ pub fn run_on(
         )
     } else {
         let mut r = Runner::new(GRef::Mut(g), cfg);
-        let ok = drive(&mut r, schedule);
+        let ok = drive(&mut r, schedule, cfg.coop);
         (
             r.trace(),
             r.acts().to_vec(),
